@@ -11,6 +11,10 @@ per step an action a_s and a drain amount d_s.
                  one-iteration drain is what makes "granted (event set) but not yet resumed, then cancelled"
                  reachable; drain 0 makes "cancelled before it ever ran" and same-iteration races reachable.
 Step 0 is always START; the last step always drains fully.
+Families (props/C40.py): everything symbolic (2 and 3 tasks); "plain" = bodies end normally and every step drains
+fully (3 tasks, longer schedules); "started" = plain with 4 tasks whose first four actions are START (a task that
+does not fit queues), followed by free leave/cancel actions - with symbolic weights this reaches two or three
+holders next to one or two waiters of different weights, the states in which release() has to choose whom to wake.
 `mode` partitions the schedules by what cancel() hits, so that distinct leak mechanisms are separate
 obligations: a cancel target is QUEUED when the task has called acquire, is not inside and the future it is
 blocked on is not done (blocked, not granted); anything else (holder, granted-not-resumed, never ran) is OTHER.
